@@ -76,6 +76,9 @@ func (t *Tracer) Emit(ev any, newBehaviour bool, nontrivial bool) {
 	}
 	t.w.Write(b)
 	t.w.WriteByte('\n')
+	if markerPath != "" && t.n%64 == 0 {
+		t.w.Flush()
+	}
 	t.n++
 	t.inChunk++
 	if nontrivial {
@@ -97,6 +100,7 @@ func (t *Tracer) Emit(ev any, newBehaviour bool, nontrivial bool) {
 
 // Close flushes the trace and prints the statistics record the orchestrator reads.
 func (t *Tracer) Close(extra map[string]any) {
+	guardedDone()
 	t.w.Flush()
 	t.f.Close()
 	st := map[string]any{
